@@ -192,6 +192,18 @@ fn fault_line(m: &mut Main, mode: &str, domain: &str, which: &str, op: &str, out
     let cuts: Vec<usize> = match which {
         "all" => (0..muts.len()).collect(),
         "sample" => { if muts.is_empty() { vec![] } else { vec![rng.below(muts.len() as u64) as usize] } }
+        w if w.starts_with("sample") => {
+            // `sample<K>`: K distinct random cuts
+            let k: usize = w[6..].parse().expect("sample<K>");
+            let mut all: Vec<usize> = (0..muts.len()).collect();
+            let mut pick = vec![];
+            while pick.len() < k && !all.is_empty() {
+                let i = rng.below(all.len() as u64) as usize;
+                pick.push(all.remove(i));
+            }
+            pick.sort();
+            pick
+        }
         n => vec![n.parse().expect("cut")],
     };
     for n in cuts {
